@@ -2,8 +2,9 @@
    Statements only; proofs live in Proofs/Visitor*.v. *)
 From Coq Require Import List NArith Bool.
 From GQL Require Import Visitor.VisitorTree Visitor.VisitorWalk Visitor.VisitorLoop
-     Visitor.VisitorKeysSpec Gen.VisitorKeys
-     Proofs.VisitorWalkProofs Proofs.VisitorLoopProofs Proofs.VisitorParallelProofs.
+     Visitor.VisitorKeysSpec Gen.VisitorKeys Visitor.TypeInfo
+     Proofs.VisitorWalkProofs Proofs.VisitorLoopProofs Proofs.VisitorParallelProofs
+     Proofs.VisitorTypeInfoProofs.
 Import ListNotations.
 
 (* The iterative loop of visitor.Visit, as written (explicit stack, keys, index, path,
@@ -97,6 +98,26 @@ Proof.
   apply VisitorParallelProofs.par_projection. exact Hok.
 Qed.
 Print Assumptions C14_parallel_projection.
+
+(* ---- type tracking ---- *)
+(* VisitWithTypeInfo announces every node of the traversal to the TypeInfo (Enter before the
+   sub-visitor's enter callback, Leave after its leave callback, and Leave at once for a node
+   the sub-visitor skips); the traversal it is driven by is the walk whose actions are the
+   sub-visitor's (C14_loop_is_walk).  What the four stacks and two variables of TypeInfo, as
+   coded, report inside every callback is `types_at` of the chain of enclosing nodes -- a
+   top-down function of the position alone -- for every schema, document of parsed shape
+   (no directive inside a directive, no argument inside an argument), visitor form and
+   policy. *)
+Theorem C14_typeinfo : forall sch attr sel pol keys_of kind_of t,
+  ti_ok false false t = true ->
+  (forall i k, In (i, k) (kinds_of t) -> kind_of i = k) ->
+  let outer := walk_events keys_of par_sel (twi_pol sel pol kind_of) t in
+  ti_run sch attr sel pol ti_init outer
+  = flat_map (fun e => match sel (e_kind e) (e_phase e) with
+                       | Some _ => [(e_phase e, e_id e, types_at sch attr (chain_of kind_of e))]
+                       | None => [] end) outer.
+Proof. intros * Hok Hk. exact (typeinfo_reports_types_at sch attr sel pol keys_of kind_of t Hok Hk). Qed.
+Print Assumptions C14_typeinfo.
 
 (* ---- the generated child-key table ---- *)
 Theorem C14_keys_complete :
